@@ -7,6 +7,7 @@ then run through the checks of every property whose units extract from the mutat
   tools/automut.py report         -> survivors that NO relevant check flags (to be triaged by hand: equivalent / harmless / a real miss)
 Scratch lives under /tmp/automut and is removed by `tools/automut.py clean`."""
 import os, re, sys, json, subprocess, shutil, concurrent.futures, tempfile
+os.environ.setdefault("VERIF_CACHE", "/tmp/hannibal-vcache")  # memoize verifier runs by generated-file hash (corpus tools only)
 ROOT = os.path.dirname(os.path.dirname(os.path.abspath(__file__)))
 W = "/tmp/automut"
 
